@@ -1,6 +1,7 @@
 package main
 
 import (
+	"bytes"
 	"fmt"
 	"io"
 	"sort"
@@ -158,7 +159,7 @@ func Exec(c *Case, rc *RunCfg) *Result {
 	}
 	in := func(name string) io.Reader { return env.reader(name, env.inputs[name]) }
 	out := env.outWriter()
-	res.Out = simrt.Run(cfg, func() {
+	body := func() {
 		switch c.Cmd {
 		case "toma":
 			res.Err = sam.ToMultiAlign(in("sam"), out, o.Wrap, o.Start, o.End, o.Pad, o.Threads)
@@ -168,7 +169,9 @@ func Exec(c *Case, rc *RunCfg) *Result {
 			res.Err = sam.Variants(in("sam"), in("ref"), o.RefFromFile, in("anno"), o.AnnoSuffix, out, o.Start, o.End, o.Aggregate, o.Threshold, o.AppendSNP, o.Threads)
 		case "variants":
 			var msa io.Reader
-			if o.Stdin {
+			if realMode {
+				msa = bytes.NewReader(env.inputs["msa"])
+			} else if o.Stdin {
 				msa = simrt.NewFile("/dev/stdin", env.reader("msa", env.inputs["msa"]))
 			} else {
 				msa = simrt.NewFile("msa.fasta", env.reader("msa", env.inputs["msa"]))
@@ -193,7 +196,20 @@ func Exec(c *Case, rc *RunCfg) *Result {
 				panic("harness: unknown command " + c.Cmd)
 			}
 		}
-	})
+	}
+	if realMode {
+		// the untransformed tree on the real Go runtime (translation-validation self-test only)
+		func() {
+			defer func() {
+				if r := recover(); r != nil {
+					res.Out.Kind, res.Out.PanicValue = simrt.Panicked, fmt.Sprint(r)
+				}
+			}()
+			body()
+		}()
+	} else {
+		res.Out = simrt.Run(cfg, body)
+	}
 	res.Stdout = env.out.Bytes()
 	res.Stderr = append([]byte(nil), stderrArena[:env.stderrN]...)
 	res.Writes = env.writes
